@@ -126,10 +126,13 @@ class Interp:
         self.max_depth = 40
         from . import lib
         self.lib = lib
+        self.fn_refs = {}           # id(callable value) -> (ref term, value)
         self.hooks = {}             # anchor hooks: 'after-call:<text>' -> fn(interp, frame, args, result)
 
     # ------------------------------------------------------------------ wrapping terms
     def wrap(self, t, kind):
+        if kind.ty == 'fn':
+            return SymFn(t)
         if kind.ty == 'obj':
             return SymObj(t, kind.cls, self.state)
         if kind.ty == 'enum':
@@ -137,6 +140,25 @@ class Interp:
         return ops.concretize(Sym(t, kind.ty, kind.cls))
 
     def unwrap(self, v, kind):
+        if hasattr(v, 'pv_key'):
+            g = v.pv_key(kind)
+            if g is None:
+                raise Unsupported('value %r cannot be used as a %s key' % (v, kind.ty))
+            return g[1]
+        if kind.ty == 'fn':
+            if isinstance(v, SymFn):
+                return v.ref
+            if v is None:
+                return z3.IntVal(0)
+            r = self.fn_refs.get(id(v))
+            if r is None:
+                r = self.ctx.fresh('fnref', IntSort)
+                self.ctx.assume(r > 0)
+                for o in self.fn_refs.values():
+                    self.ctx.assume(r != o[0])
+                self.fn_refs[id(v)] = (r, v)
+                return r
+            return r[0]
         if kind.ty == 'obj':
             if isinstance(v, SymObj):
                 return v.ref
@@ -256,6 +278,8 @@ class Interp:
         return False, None
 
     def getattr(self, v, name, frame=None):
+        if hasattr(v, 'pv_getattr'):
+            return v.pv_getattr(self, name)
         if isinstance(v, Obj):
             if name in v.attrs:
                 return v.attrs[name]
@@ -730,6 +754,10 @@ class Interp:
             return self.lib.call_builtin_type(self, fn, args, kwargs)
         if isinstance(fn, Opaque):
             return self.lib.call_opaque(self, fn, args, kwargs)
+        if isinstance(fn, SymFn):
+            return self.lib.call_symfn(self, fn, args, kwargs)
+        if hasattr(fn, 'pv_call'):
+            return fn.pv_call(self, args, kwargs)
         if isinstance(fn, (Obj, SymObj)):
             m = fn.cls.find_method('__call__') if fn.cls is not None else None
             if m is not None:
